@@ -46,6 +46,28 @@ def surround(rng):
         out.append((Case("sur%d" % j, lines, {"kinds": ["%s:%d" % (fam, n), "%s:%d" % (fam, m)]}), exp))
     return out
 
+def sketch_merges(rng):
+    """Sketch level: a sketch keeps its own stores (kind and bin limit) whatever it absorbs -- also when it holds nothing at the time of the merge."""
+    from .core import f2h
+    out = []
+    for j in range(60):
+        spec = "%s:a:%s" % (rng.choice(["log", "lin", "cub"]), f2h(rng.choice([0.01, 0.05, 0.02])))
+        fam = rng.choice(["low", "high"]); n = rng.choice([1, 4, 8, 32]); ex = " exact" if rng.random() < 0.3 else ""
+        kr = "%s:%d" % (fam, n); kw = rng.choice(["dense", "sparse", "pag", "%s:%d" % (fam, rng.choice([2, 64, 2048])), "%s:%d" % ("high" if fam == "low" else "low", 16)])
+        if rng.random() < 0.3: kr, kw = kw, kr          # and the other way round: a roomy receiver keeps its room
+        lines = ["knew r %s %s %s%s" % (spec, kr, kr, ex), "knew w %s %s %s%s" % (spec, kw, kw, ex)]
+        for k in range(rng.choice([3, 12, 40])):
+            v = rng.choice([1, 1, -1]) * 10 ** rng.uniform(-2, 3); lines.append("kadd w %s%s" % (f2h(v), rng.choice(["", "", " " + f2h(2.0)])))
+        c = rng.random()
+        if c < 0.4: lines += ["kadd r %s" % f2h(5.0), "kadd r %s" % f2h(-5.0), "kclear r"]
+        elif c < 0.5: lines += ["kadd r %s" % f2h(5.0)]
+        lines += ["kmerge r w", "kobs r", "kobs w"]
+        for k in range(rng.choice([0, 5, 30])):
+            v = rng.choice([1, 1, -1]) * 10 ** rng.uniform(-2, 3); lines.append("kadd r %s" % f2h(v))
+        lines += ["kobs r", "q r %s" % f2h(0.5), "q r %s" % f2h(rng.random()), "kobs w"]
+        out.append((Case("skm%d" % j, lines, {"kinds": [kr, kw]}), None))
+    return out
+
 def bound_oracle(case, line, answer):
     """len(bins) <= N for collapsing stores, read through the verif hook."""
     reg = line.split()[1]
@@ -69,6 +91,6 @@ def run(tier, seed):
     return storecheck.run_store_property(
         "C05", tier, seed, pool, 500 if tier == "quick" else 15000,
         "programs as for C04 over registers of collapsing kinds (N in %s) mixed with the exact kinds, pairs of different limits, plus 40 deliberate "
-        "'wider than N into an empty or cleared receiver' merges and 160 same-kind merges where the argument (another limit) lies around or beside a small receiver; oracle = stepwise clamp of an exact shadow map; len(bins) <= N through the hook. "
+        "'wider than N into an empty or cleared receiver' merges and 160 same-kind merges where the argument (another limit) lies around or beside a small receiver, and 60 sketch-level merges between sketches of different store kinds and bin limits (fresh, cleared and used receivers; the model's sketch keeps its stores); oracle = stepwise clamp of an exact shadow map; len(bins) <= N through the hook. "
         "distinct_nontrivial as for C04" % ns,
-        extra_cases=lambda rng: wide_into_empty(rng) + surround(rng), oracle_extra=bound_oracle)
+        extra_cases=lambda rng: wide_into_empty(rng) + surround(rng) + sketch_merges(rng), oracle_extra=bound_oracle)
